@@ -435,7 +435,7 @@ func replayed(pre, post *Oracle, f Frame, outs, deliv []Frame, down bool, st hsm
 	alt.Sel = true
 	aexp := alt.Expect(f)
 	if down {
-		return aexp.LinkEnds && len(outs) == 0 && len(deliv) == 0
+		return false // a link that ended is reported as such, whatever the cause
 	}
 	if aexp.LinkEnds || !framesEqual(outs, aexp.Replies) || selOf(st) != b01(alt.Sel) {
 		return false
